@@ -178,7 +178,22 @@ func genElem(kind, elem string) func(t *rapid.T) Case {
 	}
 }
 
+// ladder: value counts of rare huge variadic calls and repeat counts, past the sizes
+// at which an implementation may switch strategy (512, 1024, 2048, 4096, 8192; the
+// thorough tier rarely also 65536 and 262144).
+func ladder() []int {
+	l := []int{513, 1025, 2049, 4097, 8193}
+	if pbt.Thorough() {
+		for i := 0; i < 3; i++ {
+			l = append(l, l[:5]...)
+		}
+		l = append(l, 65537, 262145)
+	}
+	return l
+}
+
 func TestGenerated(t *testing.T) {
+	refl.Ladder = ladder()
 	pbt.ReplayOnly(t, pbt.Target[Case]{Name: "fuzz", Check: check})
 	for _, kind := range refl.Kinds {
 		pbt.Run(t, pbt.Target[Case]{Name: kind, Checks: 2000, Gen: gen(kind), Check: check, Before: before(kind)})
